@@ -84,12 +84,31 @@ def inputGrid (j : Json) (d : Dims) : Option (Grid (Cx Float)) :=
   | none => none
 
 /-- `filt` with the model's `dft3 / idft3` and `np.real`, gain read from the materialised mask -/
-def runFilter (d : Dims) (mask : Grid Float) (x : Grid (Cx Float)) : Json :=
+def flatRe (g : Grid (Cx Float)) : Json :=
+  Json.arr (g.flatMap (fun a => a.flatMap (fun b => b.map (fun (v : Cx Float) => (bitsOfFloat v.re : Json)))))
+
+/-- optional request key `roll = [s₀,s₁,s₂]`: also filter the input rolled with `rollGrid` (voxel `i` of the rolled array
+is voxel `(i + s) mod n` of the input, i.e. `np.roll(x, -s)`) -/
+def parseRoll (j : Json) : Option Idx :=
+  match getArr? j "roll" with
+  | some #[a, b, c] =>
+    match a.getInt?.toOption, b.getInt?.toOption, c.getInt?.toOption with
+    | some x, some y, some z => some (x, y, z)
+    | _, _, _ => none
+  | _ => none
+
+/-- `filt` with the model's `dft3 / idft3` and `np.real`, gain read from the materialised mask; with `roll`, the same
+pipeline on `rollGrid d s x` as well (`Props/C12.filter_grid_roll`: that is `filt` of the re-indexed input, which over ℂ is
+the re-indexed output, `filter_grid_roll_complex`) -/
+def runFilter (d : Dims) (mask : Grid Float) (x : Grid (Cx Float)) (roll : Option Idx := none) : Json :=
   let g := gainGrid d mask
   let tx := twF d.nx; let ty := twF d.ny; let tz := twF d.nz
   let inv (n : Nat) : Cx Float := ⟨1.0 / Float.ofNat n, 0⟩
-  let out := filtGrid d tx ty tz (inv d.nx) (inv d.ny) (inv d.nz) Cx.real (atIdx g.get) x
-  Json.mkObj [("out", Json.arr (out.flatMap (fun a => a.flatMap (fun b => b.map (fun (v : Cx Float) => (bitsOfFloat v.re : Json))))))]
+  let run (y : Grid (Cx Float)) := filtGrid d tx ty tz (inv d.nx) (inv d.ny) (inv d.nz) Cx.real (atIdx g.get) y
+  Json.mkObj ([("out", flatRe (run x))] ++
+    (match roll with
+     | some s => [("out_roll", flatRe (run (rollGrid d s x)))]
+     | none => []))
 
 def respond (d : Dims) (radii : List Int) (mask : Grid Float) (extra : List (String × Json) := []) : Json :=
   let g := gainGrid d mask
@@ -143,17 +162,17 @@ def handle (j : Json) : Json :=
       match inputGrid j d, getStr? j "kind" with
       | some x, some "low" =>
         match radiusOf j d "", optFloat j "sigma" with
-        | some r, some s => runFilter d (lowMaskGrid (kernelOf s) d r) x
+        | some r, some s => runFilter d (lowMaskGrid (kernelOf s) d r) x (parseRoll j)
         | none, some _ => err "reject:no-cutoff"
         | _, _ => err "bad-args"
       | some x, some "high" =>
         match radiusOf j d "", optFloat j "sigma" with
-        | some r, some s => runFilter d (highMaskGrid (kernelOf s) d r) x
+        | some r, some s => runFilter d (highMaskGrid (kernelOf s) d r) x (parseRoll j)
         | none, some _ => err "reject:no-cutoff"
         | _, _ => err "bad-args"
       | some x, some "band" =>
         match radiusOf j d "lp_", radiusOf j d "hp_", optFloat j "lp_sigma", optFloat j "hp_sigma" with
-        | some lp, some hp, some sl, some sh => runFilter d (bandMaskGrid (kernelOf sl) (kernelOf sh) d lp hp) x
+        | some lp, some hp, some sl, some sh => runFilter d (bandMaskGrid (kernelOf sl) (kernelOf sh) d lp hp) x (parseRoll j)
         | none, _, some _, some _ => err "reject:no-cutoff"
         | _, none, some _, some _ => err "reject:no-cutoff"
         | _, _, _, _ => err "bad-args"
